@@ -144,6 +144,16 @@ func (g *Gen) instr(in ssa.Instruction, h *Heap, guard string) *Heap {
 		r, h2 := m.alloc(h, guard, "closure")
 		g.setVal(x, r)
 		g.closures[x] = x
+		if fn, ok := x.Fn.(*ssa.Function); ok {
+			key := funcKey(fn)
+			g.vc.Declare("closfn", []Sort{SInt}, SInt)
+			g.vc.Def(Eq(App("closfn", r), g.fnTag(key)))
+			for i, b := range x.Bindings {
+				if i < len(fn.FreeVars) {
+					g.vc.Def(Eq(g.closBind(key, fn.FreeVars[i].Name(), r), g.val(b)))
+				}
+			}
+		}
 		return h2
 	case *ssa.Slice:
 		return g.sliceOp(x, h, guard)
@@ -320,7 +330,7 @@ func (g *Gen) unop(x *ssa.UnOp, h *Heap, guard string) *Heap {
 			g.freshVal(x)
 		}
 		g.chanRecvFacts(ch, h, guard)
-		return h
+		return g.recvEffects(ch, h, "true")
 	default:
 		g.errorf("unsupported unary operator %s", x.Op)
 		g.freshVal(x)
@@ -640,6 +650,18 @@ func lastDot(s string) int {
 }
 
 // chanRecvFacts: a completed receive on a channel with a declared readiness fact implies that fact.
+// recvEffects: ghost bookkeeping of a completed receive (accumulated timer waits).
+func (g *Gen) recvEffects(ch string, h *Heap, cond string) *Heap {
+	gs, ok1 := g.specs.Ghosts["slept"]
+	gt, ok2 := g.specs.Ghosts["timerDur"]
+	if !ok1 || !ok2 || gs.Kind != "ghost" || gt.Kind != "pure" {
+		return h
+	}
+	g.vc.Declare("U.timerDur", []Sort{SInt}, SInt)
+	cur := h.Get("G.slept", SInt)
+	return h.Set("G.slept", SInt, Ite(cond, App("+", cur, App("U.timerDur", ch)), cur))
+}
+
 func (g *Gen) chanRecvFacts(ch string, h *Heap, guard string) {
 	if gd, ok := g.specs.Ghosts["recvImplies"]; ok && gd.Kind == "ghost" {
 		// ghost recvImplies(ref) bool: set by contracts that hand out channels (ctx.Done(), time.After)
@@ -676,6 +698,7 @@ func (g *Gen) selectStmt(x *ssa.Select, h *Heap, guard string) *Heap {
 			et := st.Chan.Type().Underlying().(*types.Chan).Elem()
 			tup = append(tup, g.vc.Fresh("select.recv", sortOf(et)))
 			g.chanRecvFacts(g.val(st.Chan), h, And(guard, Eq(idx, fmt.Sprint(i))))
+			h = g.recvEffects(g.val(st.Chan), h, Eq(idx, fmt.Sprint(i)))
 		}
 	}
 	g.tuples[x] = tup
